@@ -635,11 +635,11 @@ Definition source_dispatch (a_argmin : bool) (ka kb : okind) (rt : rtype) : opti
   table_lookup s_dot_table (if a_argmin then 1 else 0) (okind_code ka) (okind_code kb) (rtype_code rt).
 
 (* matmul: strategy selection by the generated case chain *)
-Inductive matmul_strategy := MmDot | MmDotMoveAxis | MmSqueezeA | MmSqueezeB | MmBatch.
+Inductive matmul_strategy := MmDot | MmDotVec | MmDotMoveAxis | MmSqueezeA | MmSqueezeB | MmBatch.
 Definition matmul_route (a_ndim b_ndim a_lead b_lead : Z) : option matmul_strategy :=
   match s_matmul_case (VInt a_ndim) (VInt b_ndim) (VInt a_lead) (VInt b_lead) with
-  | Ok (VInt 1) => Some MmDot | Ok (VInt 2) => Some MmDotMoveAxis | Ok (VInt 3) => Some MmSqueezeA
-  | Ok (VInt 4) => Some MmSqueezeB | Ok (VInt 5) => Some MmBatch | _ => None
+  | Ok (VInt 1) => Some MmDot | Ok (VInt 2) => Some MmDotVec | Ok (VInt 3) => Some MmDotMoveAxis
+  | Ok (VInt 4) => Some MmSqueezeA | Ok (VInt 5) => Some MmSqueezeB | Ok (VInt 6) => Some MmBatch | _ => None
   end.
 
 (* ---------------------------------------------------------------------- _einsum_single *)
@@ -754,6 +754,11 @@ Definition coo_csr_indptr (dtype_code bits : Z) (signed : bool) (rows : list Z) 
 Definition coo_indptr_a := coo_csr_indptr s_coo_indptr_dtype_a.
 Definition coo_indptr_b := coo_csr_indptr s_coo_indptr_dtype_b.
 
+(* every value buffer / accumulator of the kernels (sums, data, out) is allocated in the result dtype dtr: the
+   theorems compute in the carrier V of the result; a float64 accumulator (as _dot_csc_ndarray_sparse once had)
+   rounds int64 sums beyond 2**53 and cannot hold complex values *)
+Definition dot_value_buffers_typed : bool := forallb (fun c => c =? 2) s_dot_data_allocs.
+
 (* every pointer / index / counter array of the product paths is allocated wide (np.intp or the platform integer) *)
 Definition dot_index_arrays_wide : bool := forallb (fun c => (c =? 0) || (c =? 3)) s_dot_index_allocs.
 
@@ -774,3 +779,13 @@ Fixpoint table4_lookup (t : list (Z * Z * Z * Z)) (a b c : Z) : option Z :=
   end.
 Definition source_shortcut_kind (ka kb : okind) (rt : rtype) : option Z :=
   table4_lookup s_td_shortcut_kinds (okind_code ka) (okind_code kb) (rtype_code rt).
+
+(* ---------------------------------------------------------------------- einsum: letters standing for `...` *)
+(* _parse_einsum_input replaces `...` in a term whose ellipsis covers k axes by k letters of the pool of unused
+   letters, and in the output by `longest` letters (none when the count is 0).  Which end of the pool: Gen/S_dot.v. *)
+Definition take_letters (from_end : bool) (pool : list Z) (k : nat) : list Z :=
+  if from_end then skipn (length pool - k) pool else firstn k pool.
+Definition es_rep_letters (pool : list Z) (k : nat) : list Z :=
+  match k with O => [] | _ => take_letters s_es_rep_from_end pool k end.
+Definition es_out_letters (pool : list Z) (longest : nat) : list Z :=
+  match longest with O => [] | _ => take_letters s_es_out_from_end pool longest end.
